@@ -348,7 +348,7 @@ def r4_order(c, facts):
     else:
         c.bad(R, 'duplicate-not-reported', 'declare_variable no longer reports a duplicate declaration as an error')
     df = c.anchor(R, 'oal_compiler::resolve::define_variable')
-    if branches_on_result(df, 'env::Env::lookup') and has_kind(df, 'NotInScope'):
+    if branches_on_result(df, 'env::Env::lookup') and (has_kind(df, 'NotInScope') or any(has_kind(g, 'NotInScope') for g in facts.closures_of(facts.fns.get(df.id, df)) if g.mir)):
         c.ok(R, {'define_variable': 'Err(NotInScope) depending on the result of Env::lookup'})
     else:
         c.bad(R, 'unbound-not-reported', 'define_variable no longer reports an unbound identifier as an error')
